@@ -30,6 +30,7 @@ import (
 	Log "github.com/openGemini/openGemini/lib/logger"
 	"github.com/openGemini/openGemini/lib/statisticsPusher/statistics"
 	"github.com/openGemini/openGemini/lib/util/lifted/influx/meta"
+	"github.com/openGemini/openGemini/lib/verifhook"
 	"go.uber.org/zap"
 )
 
@@ -203,6 +204,7 @@ func (t *tsImmTableImpl) AddBothTSSPFiles(flushed *bool, m *MmsTables, name stri
 	if len(unorderFiles) != 0 {
 		unorderFs = t.makeTSSPFiles(m, name, false, unorderFiles)
 	}
+	verifhook.Yield("AddBothTSSPFiles.beforeLock")
 	if orderFs != nil {
 		orderFs.lock.Lock()
 		defer orderFs.lock.Unlock()
